@@ -3,6 +3,7 @@ package main
 // Execution of Lifecycle_gen.tla records (spec -> code).
 
 import (
+	"bytes"
 	"encoding/base64"
 	"encoding/json"
 	"fmt"
@@ -607,6 +608,113 @@ func keyResponse(vk, ok string) []byte {
 	return signed
 }
 
+// keyIDOf: the concrete key ID of a KeyIdShapes class (spec/Lifecycle.tla).
+func keyIDOf(shape string) string {
+	switch shape {
+	case "alg_only":
+		return "ed25519"
+	case "alg_colon":
+		return "ed25519:"
+	case "colon_ver":
+		return ":1"
+	case "colon_only":
+		return ":"
+	case "empty":
+		return ""
+	case "two_colons":
+		return "ed25519:a:b"
+	case "alg_prefix":
+		return "ed25519ph:1"
+	case "alg_suffix":
+		return "xed25519"
+	case "other_alg_only":
+		return "curve25519"
+	case "other_alg":
+		return "curve25519:1"
+	case "upper":
+		return "ED25519"
+	case "space":
+		return "ed25519 "
+	case "long":
+		return "ed25519" + strings.Repeat("k", 70000)
+	case "nul":
+		return "ed25519\x00:1"
+	case "nonascii":
+		return "ed25519\u00e9"
+	}
+	fatalf("unknown key ID shape %q", shape)
+	return ""
+}
+
+// keyIDResponse builds a /key/v2/server response of server hs1 one of whose members has a key ID of the given shape
+// and a key of the given length class; place: next to the usual key ("verify"), as the only verify key with the
+// response signed under that very ID ("verify_alone"), among the old keys ("old"), in both objects ("both").
+func keyIDResponse(place, shape, length string) []byte {
+	pub := []byte(serverKeys["hs1"].Public().(edPub))
+	id := keyIDOf(shape)
+	var entry tree
+	switch length {
+	case "len32":
+		entry = tree{"key": b64(pub)}
+	case "len32_other":
+		entry = tree{"key": b64(bytes.Repeat([]byte{9}, 32))}
+	case "len31":
+		entry = tree{"key": b64(pub[:31])}
+	case "len33":
+		entry = tree{"key": b64(append(append([]byte{}, pub...), 0))}
+	case "len64":
+		entry = tree{"key": b64(append(append([]byte{}, pub...), pub...))}
+	case "len0":
+		entry = tree{"key": ""}
+	case "bad_b64":
+		entry = tree{"key": "!!!"}
+	case "key_null":
+		entry = tree{"key": nil}
+	case "key_missing":
+		entry = tree{}
+	default:
+		fatalf("unknown key length class %q", length)
+	}
+	copyOf := func(old bool) tree {
+		c := tree{}
+		for k, v := range entry {
+			c[k] = v
+		}
+		if old {
+			c["expired_ts"] = 4102444800000
+		}
+		return c
+	}
+	doc := tree{"server_name": "hs1", "valid_until_ts": 4102444800000, "old_verify_keys": tree{}}
+	usual := tree{"ed25519:1": tree{"key": b64(pub)}}
+	signAs := []string{"ed25519:1"}
+	switch place {
+	case "verify":
+		usual[id] = copyOf(false)
+		doc["verify_keys"] = usual
+		signAs = append(signAs, id)
+	case "verify_alone":
+		doc["verify_keys"] = tree{id: copyOf(false)}
+		signAs = []string{id}
+	case "old":
+		doc["verify_keys"] = usual
+		doc["old_verify_keys"] = tree{id: copyOf(true)}
+	case "both":
+		usual[id] = copyOf(false)
+		doc["verify_keys"] = usual
+		doc["old_verify_keys"] = tree{id: copyOf(true)}
+	default:
+		fatalf("unknown key ID place %q", place)
+	}
+	out := marshalTree(doc)
+	for _, k := range signAs {
+		if signed, err := gmsl.SignJSON("hs1", gmsl.KeyID(k), serverKeys["hs1"], out); err == nil {
+			out = signed
+		}
+	}
+	return out
+}
+
 func headerClass(cls string) string {
 	good := `X-Matrix origin="hs1",key="ed25519:1",sig="` + b64(make([]byte, 64)) + `",destination="hs9"`
 	switch cls {
@@ -747,6 +855,8 @@ func rawInput(r *rec) []byte {
 		return signedDoc(r.C1)
 	case "keys":
 		return keyResponse(r.C1, r.C2)
+	case "keyid":
+		return keyIDResponse(r.K1, r.C1, r.C2)
 	case "header":
 		return []byte(headerClass(r.C1))
 	case "headers":
@@ -778,6 +888,9 @@ func execRaw(r *rec) hx.Result {
 	cls := r.Type + ":" + r.C1
 	if r.Type == "keys" {
 		cls = "keys:verify_key=" + r.C1 + "&old_verify_key=" + r.C2
+	}
+	if r.Type == "keyid" {
+		cls = "keys:key_id=" + r.C1 + "&key=" + r.C2 + "&in=" + r.K1
 	}
 	if r.Type == "ident" {
 		cls = "ident:" + r.K1 + "=" + r.C1
